@@ -928,9 +928,11 @@ def rule_r5(ctx) -> List[R.Inst]:
                 sym.same_formula(sl_.slice.upper, "event_count * 4") and len(en.args) == 1 and not en.keywords
             insts.append(R.ok(rid, f"{meth}:slots", file, lp_.lineno, idiom="enumerate over the event_count 4-byte records, from 0") if whole else
                          R.undec(rid, f"{meth}:slots", file, lp_.lineno, "extent / start of the enumerated records not recognised"))
+        elif loops:
+            insts.append(R.viol(rid, f"{meth}:slots", file, loops[0].lineno,
+                                "every slot 0..n-1 of a package must be visited", construct=unparse(loops[0].iter)))
         else:
-            insts.append(R.viol(rid, f"{meth}:slots", file, (loops[0] if loops else fn.node).lineno,
-                                "every slot 0..n-1 of a package must be visited", construct=unparse(loops[0].iter) if loops else ""))
+            insts.append(R.undec(rid, f"{meth}:slots", file, fn.node.lineno, "how the slots of a package are enumerated was not recognised"))
     return insts
 
 
@@ -1185,7 +1187,22 @@ def rule_r8(ctx) -> List[R.Inst]:
         kw = ctor_kwargs(ins[0].args[1]) or {}
         off, bpm = kw.get("offset", kw.get("#0")), kw.get("bpm", kw.get("#1"))
         good = isinstance(off, ast.Constant) and off.value == 0 and bpm is not None and unparse(bpm) == "init_bpm"
-    insts.append(R.ok(rid, "initial-tempo", file, ins[0].lineno, idiom="O2JBpm(offset=0, bpm=init_bpm) first") if good else
+    if not ins:
+        # display form: [O2JBpm(offset=0, bpm=init_bpm), *bpms] handed to the tempo list
+        for n in walk_no_nested(fn.node):
+            if isinstance(n, (ast.List, ast.Tuple)) and len(n.elts) == 2 and isinstance(n.elts[1], ast.Starred) and unparse(n.elts[1].value) == "bpms" and \
+                    isinstance(n.elts[0], ast.Call):
+                kw = ctor_kwargs(n.elts[0]) or {}
+                off, bpm = kw.get("offset", kw.get("#0")), kw.get("bpm", kw.get("#1"))
+                if isinstance(off, ast.Constant) and off.value == 0 and bpm is not None and unparse(bpm) == "init_bpm":
+                    good = True
+                    ins = [n]
+                elif kw:
+                    ins = [n]
+    if not ins:
+        insts.append(R.undec(rid, "initial-tempo", file, fn.node.lineno, "where the header tempo enters the tempo list was not found"))
+    else:
+      insts.append(R.ok(rid, "initial-tempo", file, ins[0].lineno, idiom="O2JBpm(offset=0, bpm=init_bpm) first") if good else
                  R.viol(rid, "initial-tempo", file, (ins[0] if ins else fn.node).lineno,
                         "the header tempo must be the first tempo point, at 0 ms", construct=unparse(ins[0]) if ins else "no insert"))
     # (e) all three lists assigned from the right kinds
